@@ -49,6 +49,17 @@ Record inc_site := mk_inc {
   i_tele : bool;          (* the call is an argument of a telemetry.* call *)
   i_scope : scope }.
 
+(** Process-local mutable state: a field of a long-lived object (keeper, app, precompile object, msg / query server) of a
+    keeper / precompile / app package, or a package-level variable of a consensus package, whose type holds a Go map, a
+    channel, or a sync / atomic / cache object (looked into through the repository's own non-keeper struct types). *)
+Inductive ps_kind := PSMap | PSChan | PSSync.
+
+Record pstate := mk_ps {
+  p_pkg : string; p_owner : string (* struct name, or "<package>" *); p_field : string; p_type : string;
+  p_kind : ps_kind;
+  p_written : bool;       (* package-level variable: assigned / index-assigned / Store()d in a function other than init *)
+  p_scope : scope }.
+
 (** decidable equalities used by the table lookup *)
 Definition syn_eqb (a b : syn) : bool :=
   match a, b with
